@@ -553,5 +553,5 @@ func TestSimWorker(t *testing.T) {
 		t.Skip("simulation worker: set VERIF_HARNESS")
 	}
 	simT = t
-	os.Exit(simk.WorkerMain([]*simk.Harness{{Name: "tcpcl", Gen: genTcpclCase, Run: runTcpclCase}}))
+	os.Exit(simk.WorkerMain([]*simk.Harness{{Name: "tcpcl", Gen: genTcpclCase, Run: runTcpclCase}, {Name: "dec-tcpcl", Gen: genTcDecCase, Run: runTcDecCase}}))
 }
